@@ -336,7 +336,8 @@ Definition wf_opt {A} (f : A -> bool) (o : option A) : bool :=
 Fixpoint nodupb (l : list N) : bool :=
   match l with [] => true | x :: t => negb (existsb (N.eqb x) t) && nodupb t end.
 Definition wf_map (m : list (N * list N)) : bool :=
-  forallb (fun e => (fst e <? P64) && wf_fixed 32 (snd e)) m && nodupb (map fst m) && (lenN m <? P64).
+  forallb (fun e => (fst e <? P64) && wf_fixed 32 (snd e)) m && nodupb (map fst m)
+  && (lenN m * ENTRY <=? ISIZE_MAX).       (* the map exists in memory *)
 Definition wf_status (s : upd_status) : bool :=
   match s with Success t => time_okb t | LastAttempt t => time_okb t end.
 Definition wf_header (h : header) : bool :=
